@@ -230,14 +230,15 @@ def St.cascade (s : St) (nroot : Nat) : Nat → St
 
 /-- `mpt_array_reserve(&h, len * 8, element traits)` on an array handle that is empty or names a library heap
     buffer of the same element type: an empty handle gets a new buffer; a shared buffer is replaced by a new one
-    holding copies of the first `len` elements and is released; an unshared one is detached in place -/
+    holding copies of all its elements and is released; an unshared one is detached in place -/
 def St.reserve (s : St) (h len : Nat) : St × Bool :=
   match s.hnd.getD h none with
   | none =>
     let nb : RObj := { kind := .rbuf, count := 1, alive := true, ext := 0, elems := [], cap := capOf (len * 8) }
     ({ s with objs := s.objs ++ [nb], ev := s.ev ++ [{}], hnd := s.hnd.set h (some s.objs.length) }, true)
   | some o =>
-    if (s.obj o).count > 1 then (s.relocateWith h o (capOf (len * 8)) false ((s.obj o).elems.take len), true)
+    if (s.obj o).count > 1 then
+      (s.relocateWith h o (capOf (max (len * 8) ((s.obj o).elems.length * 8))) false (s.obj o).elems, true)
     else s.detach h len
 
 /-! ### `mpt::unique_array<T>` (mptcore/array.h): handles of BufferNoCopy heap buffers; `none` = the static
